@@ -76,8 +76,9 @@ func moduleLocks(c *eng.Ctx) *eng.Locks {
 					if _, isPre := prepubFns[cal]; isPre {
 						return false
 					}
-					// helpers that require the lock held are fine before publication
-					if cal.Name() == "flushCacheLocked" {
+					// helpers that never take the lock themselves and start no
+					// goroutine (the "...Locked" helpers) do not publish
+					if !locksOrSpawns(p, cal) {
 						return false
 					}
 				}
@@ -112,4 +113,27 @@ func derefAllocType(v ssa.Value) ssa.Value {
 		}
 	}
 	return nil
+}
+
+var locksOrSpawnsCache = map[*ssa.Function]bool{}
+
+// locksOrSpawns: f (transitively, module call graph) performs a mutex
+// operation on the Store's lock or starts a goroutine.
+func locksOrSpawns(p *eng.Prog, f *ssa.Function) bool {
+	if v, ok := locksOrSpawnsCache[f]; ok {
+		return v
+	}
+	hits := p.CallGraph().FindReachable(f, nil, func(in ssa.Instruction) bool {
+		if _, isGo := in.(*ssa.Go); isGo {
+			return true
+		}
+		if ci, ok := in.(ssa.CallInstruction); ok {
+			if _, k, isL := eng.LockOp(ci.Common()); isL && k == keyStore {
+				return true
+			}
+		}
+		return false
+	})
+	locksOrSpawnsCache[f] = len(hits) > 0
+	return len(hits) > 0
 }
